@@ -164,7 +164,7 @@ PROPS["C02"] = {
         H("h_c02_xmlid", {"N": 3}, {"N": 4}, shards={"quick": shard_choose("len", 4), "thorough": shard_choose("len", 5)}),
         # shared with C03: namespace scoping between top-level siblings of a fragment; character references by value
         H("h_c03_fragment_scope", shards={"quick": shard_choose("shape", 3), "thorough": shard_choose("shape", 3)}),
-        H("h_c03_charref_value", {"DIGITS": 5}, {"DIGITS": 7}, shards={"quick": CHARREF_SHARDS(5), "thorough": CHARREF_SHARDS(7)}),
+        H("h_c03_charref_value", {"DIGITS": 5}, {"DIGITS": 6}, shards={"quick": CHARREF_SHARDS(5), "thorough": CHARREF_SHARDS(6)}),
     ],
     "bounds": {"quick": "character-data spellings of <=3 arbitrary chars at the kernel; two-piece spellings (literal char, entity, "
                         "char reference, CR LF, CDATA) end to end in text and in both quote styles of attributes; 8x8 declaration "
@@ -182,7 +182,7 @@ PROPS["C03"] = {
         H("h_c03_tags", {"PIECES": 3}, {"PIECES": 4}, shards={"quick": shard_product(("fragment", 2), ("k0", 7)), "thorough": shard_product(("fragment", 2), ("k0", 7), ("k1", 7))}),
         H("h_c03_rejects", shards={"quick": shard_choose("k", 17), "thorough": shard_choose("k", 17)}),
         H("h_c03_fragment_scope", shards={"quick": shard_choose("shape", 3), "thorough": shard_choose("shape", 3)}),
-        H("h_c03_charref_value", {"DIGITS": 5}, {"DIGITS": 7}, shards={"quick": CHARREF_SHARDS(5), "thorough": CHARREF_SHARDS(7)}),
+        H("h_c03_charref_value", {"DIGITS": 5}, {"DIGITS": 6}, shards={"quick": CHARREF_SHARDS(5), "thorough": CHARREF_SHARDS(6)}),
         H("h_c03_total", {"N": 2}, {"N": 3}, shards={"quick": shard_product(("pre", 8), ("fragment", 2)), "thorough": shard_product(("pre", 8), ("fragment", 2))}),
     ],
     "bounds": {"quick": "character data of <=3 arbitrary chars with any base offset <=2^40; every sequence of 3 tag/text/comment "
